@@ -543,16 +543,23 @@ func (g *genr) numLeaf(hint string) *node {
 	case "count1":
 		return intLit(r.Range(1, 4))
 	case "index":
-		if r.Chance(0.4) {
+		switch r.Intn(20) {
+		case 0:
+			return intLit(-r.Range(1, 3)) // from the end
+		case 1, 2, 3, 4, 5, 6, 7:
 			return intLit(r.Range(5, 13))
 		}
 		return intLit(r.Range(1, 4))
 	case "stop":
-		switch r.Intn(8) {
-		case 0, 1:
+		switch r.Intn(16) {
+		case 0, 1, 2, 3:
 			return intLit(r.Range(7, 15))
-		case 2:
+		case 4, 5:
 			return num(fw.Pick(r, []string{"100", "65536", "2147483647"}))
+		case 6:
+			return num("0") // the end
+		case 7:
+			return intLit(-r.Range(1, 2)) // from the end
 		}
 		return intLit(r.Range(3, 6))
 	case "charcode":
